@@ -1111,7 +1111,7 @@ Theorem float_key_matches_flocq_sample_thm :
   agree_on flocq_cmp64 (key_cmp is_nan64 fkey64) samples64 = true.
 Proof. split; vm_compute; reflexivity. Qed.
 
-(* Print Assumptions float_key_matches_flocq_sample_thm lists exactly:
+(* Print Assumptions float_key_matches_flocq_sample_thm (and the two theorems of Part 9) lists exactly:
      ClassicalDedekindReals.sig_not_dec, ClassicalDedekindReals.sig_forall_dec,
      FunctionalExtensionality.functional_extensionality_dep, Classical_Prop.classic
    (Flocq's binary floats are defined over Coq's reals).  The statement is kept out of Props/Properties_C16.v
@@ -1141,3 +1141,198 @@ Proof.
     destruct (nonempty (ps_min_value p)), (nonempty (ps_max_value p)); try discriminate;
       destruct (nonempty (ps_min_deprecated p)), (nonempty (ps_max_deprecated p)); discriminate.
 Qed.
+
+(** ------------------------------------------------------------------------------------------------
+    Part 9 (optional link, complete): for ALL 32-bit and all 64-bit patterns Flocq's IEEE-754 comparison of the decoded
+    floats is the comparison of the sign-magnitude keys, and it is undefined (None) exactly on the patterns [is_nan]
+    classifies as NaN.  Proof: every pattern decodes to a zero, an infinity, a NaN or a finite (m, e) whose magnitude is
+    (e + bias) * 2^mw + m (subnormals have e = emin and m < 2^mw, normals m >= 2^mw), so SpecFloat's lexicographic
+    comparison on (sign, e, m) is the comparison of the keys.  The axioms Print Assumptions lists for these two theorems
+    (ClassicalDedekindReals.sig_not_dec, sig_forall_dec, FunctionalExtensionality.functional_extensionality_dep,
+    Classical_Prop.classic) enter only through Flocq's definition of binary floats over Coq's reals. *)
+From Coq Require Import Floats.SpecFloat ZifyN ZifyBool.
+Module FloatLink.
+Import Flocq.IEEE754.Binary Flocq.IEEE754.Bits.
+Ltac Zify.zify_post_hook ::= Z.div_mod_to_equations.
+
+Section W.
+  Variables M E : Z.   (* 2^mw, 2^ew *)
+  Definition signZ (x : Z) : bool := (M * E <=? x).
+  Definition magZ (x : Z) : Z := x mod (M * E).
+  Definition nanZ (x : Z) : bool := ((E - 1) * M <? magZ x).
+  Definition keyZ (x : Z) : Z := if signZ x then - magZ x else magZ x.
+  Definition kcZ (x y : Z) : option comparison := if nanZ x || nanZ y then None else Some (Z.compare (keyZ x) (keyZ y)).
+
+  (* the shape of a decoded pattern *)
+  Inductive shape (bias : Z) (x : Z) : SpecFloat.spec_float -> Prop :=
+  | sh_nan : nanZ x = true -> shape bias x S754_nan
+  | sh_zero : nanZ x = false -> magZ x = 0 -> shape bias x (S754_zero (signZ x))
+  | sh_inf : nanZ x = false -> magZ x = (E - 1) * M -> shape bias x (S754_infinity (signZ x))
+  | sh_fin : forall m e, nanZ x = false -> magZ x = (e + bias) * M + Zpos m -> 0 < Zpos m < 2 * M ->
+                         - bias <= e -> (- bias < e -> M <= Zpos m) -> magZ x < (E - 1) * M ->
+                         shape bias x (S754_finite (signZ x) m e).
+End W.
+
+
+Lemma shape32 : forall x, 0 <= x < 4294967296 ->
+  shape 8388608 256 149 x (FF2SF (binary_float_of_bits_aux 23 8 x)).
+Proof.
+  intros x Hx.
+  unfold binary_float_of_bits_aux, split_bits.
+  change (2 ^ 23) with 8388608. change (2 ^ 8) with 256. change (8388608 * 256) with 2147483648.
+  change (256 - 1) with 255. change (emin (23 + 1) (2 ^ (8 - 1))) with (-149).
+  assert (Hs : signZ 8388608 256 x = (2147483648 <=? x)) by reflexivity.
+  assert (Hm : magZ 8388608 256 x = x mod 2147483648) by reflexivity.
+  assert (Hn : nanZ 8388608 256 x = (2139095040 <? x mod 2147483648)) by reflexivity.
+  rewrite <- Hs.
+  destruct (Zeq_bool ((x / 8388608) mod 256) 0) eqn:E0.
+  - apply Zeq_bool_eq in E0.
+    destruct (x mod 8388608) as [|px|px] eqn:Em; cbn [FF2SF].
+    + apply sh_zero; [rewrite Hn; apply Z.ltb_ge; lia|rewrite Hm; lia].
+    + apply sh_fin; rewrite ?Hn, ?Hm; try (apply Z.ltb_ge); lia.
+    + exfalso. lia.
+  - apply Zeq_bool_neq in E0.
+    destruct (Zeq_bool ((x / 8388608) mod 256) 255) eqn:E1.
+    + apply Zeq_bool_eq in E1.
+      destruct (x mod 8388608) as [|px|px] eqn:Em; cbn [FF2SF].
+      * apply sh_inf; [rewrite Hn; apply Z.ltb_ge; lia|rewrite Hm; lia].
+      * apply sh_nan. rewrite Hn. apply Z.ltb_lt. lia.
+      * exfalso. lia.
+    + apply Zeq_bool_neq in E1.
+      destruct (x mod 8388608 + 8388608) as [|px|px] eqn:Em; cbn [FF2SF]; try (exfalso; lia).
+      apply sh_fin; rewrite ?Hn, ?Hm; try (apply Z.ltb_ge); lia.
+Qed.
+
+Lemma pcompare_eq : forall p q, Pos.compare_cont Eq p q = Z.compare (Zpos p) (Zpos q).
+Proof. intros. reflexivity. Qed.
+
+Ltac cmp_cases :=
+  repeat match goal with
+         | |- context [Z.compare ?a ?b] => destruct (Z.compare_spec a b)
+         end; try reflexivity; try lia.
+
+Lemma sfcompare32 : forall x y fx fy,
+  shape 8388608 256 149 x fx -> shape 8388608 256 149 y fy ->
+  SFcompare fx fy = kcZ 8388608 256 x y.
+Proof.
+  intros x y fx fy Sx Sy. unfold kcZ, keyZ.
+  assert (Rx : 0 <= magZ 8388608 256 x < 2147483648) by (unfold magZ; apply Z.mod_pos_bound; lia).
+  assert (Ry : 0 <= magZ 8388608 256 y < 2147483648) by (unfold magZ; apply Z.mod_pos_bound; lia).
+  change ((256 - 1) * 8388608) with 2139095040 in *.
+  destruct Sx as [Nx|Nx Zx|Nx Ix|mx ex Nx Fx Bx Lx Gx Ux]; rewrite Nx; cbn [orb]; [reflexivity| | |];
+    (destruct Sy as [Ny|Ny Zy|Ny Iy|my ey Ny Fy By Ly Gy Uy]; rewrite Ny; [reflexivity| | |]);
+    cbn [SFcompare]; destruct (signZ 8388608 256 x), (signZ 8388608 256 y);
+    rewrite ?pcompare_eq; f_equal; cmp_cases.
+Qed.
+
+
+Lemma b32_cmp_aux : forall X Y,
+  Bcompare 24 128 (b32_of_bits X) (b32_of_bits Y) =
+  SFcompare (FF2SF (binary_float_of_bits_aux 23 8 X)) (FF2SF (binary_float_of_bits_aux 23 8 Y)).
+Proof.
+  intros X Y. unfold Bcompare, BinarySingleNaN.Bcompare, b32_of_bits, binary_float_of_bits.
+  rewrite !B2SF_B2BSN, !B2SF_FF2B. reflexivity.
+Qed.
+
+Lemma nan32_Z : forall x : N, is_nan32 x = nanZ 8388608 256 (Z.of_N x).
+Proof.
+  intro x. unfold is_nan32, Order.is_nan, nanZ, magZ.
+  change ((2 ^ 8 - 1) * 2 ^ 23)%N with 2139095040%N. change (2 ^ (8 + 23))%N with 2147483648%N.
+  change ((256 - 1) * 8388608) with 2139095040. change (8388608 * 256) with 2147483648.
+  destruct (N.ltb_spec 2139095040 (x mod 2147483648)); destruct (Z.ltb_spec 2139095040 (Z.of_N x mod 2147483648)); try reflexivity; lia.
+Qed.
+
+Lemma key32_Z : forall x : N, (x < 4294967296)%N -> fkey32 x = keyZ 8388608 256 (Z.of_N x).
+Proof.
+  intros x Hx. unfold fkey32, fkey, keyZ, signZ, magZ.
+  change (2 ^ (8 + 23))%N with 2147483648%N. change (8388608 * 256) with 2147483648.
+  destruct (N.ltb_spec x 2147483648); destruct (Z.leb_spec 2147483648 (Z.of_N x)); try lia.
+Qed.
+
+Theorem float_key_is_ieee32 : forall x y : N, (x < 4294967296)%N -> (y < 4294967296)%N ->
+  flocq_cmp32 x y = key_cmp is_nan32 fkey32 x y.
+Proof.
+  intros x y Hx Hy. unfold flocq_cmp32. rewrite b32_cmp_aux.
+  assert (Rx : 0 <= Z.of_N x < 4294967296) by lia. assert (Ry : 0 <= Z.of_N y < 4294967296) by lia.
+  rewrite (sfcompare32 (Z.of_N x) (Z.of_N y) _ _ (shape32 _ Rx) (shape32 _ Ry)).
+  unfold kcZ, key_cmp. rewrite <- !nan32_Z, <- !key32_Z by assumption. reflexivity.
+Qed.
+
+Lemma shape64 : forall x, 0 <= x < 18446744073709551616 ->
+  shape 4503599627370496 2048 1074 x (FF2SF (binary_float_of_bits_aux 52 11 x)).
+Proof.
+  intros x Hx.
+  unfold binary_float_of_bits_aux, split_bits.
+  change (2 ^ 52) with 4503599627370496. change (2 ^ 11) with 2048. change (4503599627370496 * 2048) with 9223372036854775808.
+  change (2048 - 1) with 2047. change (emin (52 + 1) (2 ^ (11 - 1))) with (-1074).
+  assert (Hs : signZ 4503599627370496 2048 x = (9223372036854775808 <=? x)) by reflexivity.
+  assert (Hm : magZ 4503599627370496 2048 x = x mod 9223372036854775808) by reflexivity.
+  assert (Hn : nanZ 4503599627370496 2048 x = (9218868437227405312 <? x mod 9223372036854775808)) by reflexivity.
+  rewrite <- Hs.
+  destruct (Zeq_bool ((x / 4503599627370496) mod 2048) 0) eqn:E0.
+  - apply Zeq_bool_eq in E0.
+    destruct (x mod 4503599627370496) as [|px|px] eqn:Em; cbn [FF2SF].
+    + apply sh_zero; [rewrite Hn; apply Z.ltb_ge; lia|rewrite Hm; lia].
+    + apply sh_fin; rewrite ?Hn, ?Hm; try (apply Z.ltb_ge); lia.
+    + exfalso. lia.
+  - apply Zeq_bool_neq in E0.
+    destruct (Zeq_bool ((x / 4503599627370496) mod 2048) 2047) eqn:E1.
+    + apply Zeq_bool_eq in E1.
+      destruct (x mod 4503599627370496) as [|px|px] eqn:Em; cbn [FF2SF].
+      * apply sh_inf; [rewrite Hn; apply Z.ltb_ge; lia|rewrite Hm; lia].
+      * apply sh_nan. rewrite Hn. apply Z.ltb_lt. lia.
+      * exfalso. lia.
+    + apply Zeq_bool_neq in E1.
+      destruct (x mod 4503599627370496 + 4503599627370496) as [|px|px] eqn:Em; cbn [FF2SF]; try (exfalso; lia).
+      apply sh_fin; rewrite ?Hn, ?Hm; try (apply Z.ltb_ge); lia.
+Qed.
+
+
+Lemma sfcompare64 : forall x y fx fy,
+  shape 4503599627370496 2048 1074 x fx -> shape 4503599627370496 2048 1074 y fy ->
+  SFcompare fx fy = kcZ 4503599627370496 2048 x y.
+Proof.
+  intros x y fx fy Sx Sy. unfold kcZ, keyZ.
+  assert (Rx : 0 <= magZ 4503599627370496 2048 x < 9223372036854775808) by (unfold magZ; apply Z.mod_pos_bound; lia).
+  assert (Ry : 0 <= magZ 4503599627370496 2048 y < 9223372036854775808) by (unfold magZ; apply Z.mod_pos_bound; lia).
+  change ((2048 - 1) * 4503599627370496) with 9218868437227405312 in *.
+  destruct Sx as [Nx|Nx Zx|Nx Ix|mx ex Nx Fx Bx Lx Gx Ux]; rewrite Nx; cbn [orb]; [reflexivity| | |];
+    (destruct Sy as [Ny|Ny Zy|Ny Iy|my ey Ny Fy By Ly Gy Uy]; rewrite Ny; [reflexivity| | |]);
+    cbn [SFcompare]; destruct (signZ 4503599627370496 2048 x), (signZ 4503599627370496 2048 y);
+    rewrite ?pcompare_eq; f_equal; cmp_cases.
+Qed.
+
+
+Lemma b64_cmp_aux : forall X Y,
+  Bcompare 53 1024 (b64_of_bits X) (b64_of_bits Y) =
+  SFcompare (FF2SF (binary_float_of_bits_aux 52 11 X)) (FF2SF (binary_float_of_bits_aux 52 11 Y)).
+Proof.
+  intros X Y. unfold Bcompare, BinarySingleNaN.Bcompare, b64_of_bits, binary_float_of_bits.
+  rewrite !B2SF_B2BSN, !B2SF_FF2B. reflexivity.
+Qed.
+
+Lemma nan64_Z : forall x : N, is_nan64 x = nanZ 4503599627370496 2048 (Z.of_N x).
+Proof.
+  intro x. unfold is_nan64, Order.is_nan, nanZ, magZ.
+  change ((2 ^ 11 - 1) * 2 ^ 52)%N with 9218868437227405312%N. change (2 ^ (11 + 52))%N with 9223372036854775808%N.
+  change ((2048 - 1) * 4503599627370496) with 9218868437227405312. change (4503599627370496 * 2048) with 9223372036854775808.
+  destruct (N.ltb_spec 9218868437227405312 (x mod 9223372036854775808)); destruct (Z.ltb_spec 9218868437227405312 (Z.of_N x mod 9223372036854775808)); try reflexivity; lia.
+Qed.
+
+Lemma key64_Z : forall x : N, (x < 18446744073709551616)%N -> fkey64 x = keyZ 4503599627370496 2048 (Z.of_N x).
+Proof.
+  intros x Hx. unfold fkey64, fkey, keyZ, signZ, magZ.
+  change (2 ^ (11 + 52))%N with 9223372036854775808%N. change (4503599627370496 * 2048) with 9223372036854775808.
+  destruct (N.ltb_spec x 9223372036854775808); destruct (Z.leb_spec 9223372036854775808 (Z.of_N x)); try lia.
+Qed.
+
+Theorem float_key_is_ieee64 : forall x y : N, (x < 18446744073709551616)%N -> (y < 18446744073709551616)%N ->
+  flocq_cmp64 x y = key_cmp is_nan64 fkey64 x y.
+Proof.
+  intros x y Hx Hy. unfold flocq_cmp64. rewrite b64_cmp_aux.
+  assert (Rx : 0 <= Z.of_N x < 18446744073709551616) by lia. assert (Ry : 0 <= Z.of_N y < 18446744073709551616) by lia.
+  rewrite (sfcompare64 (Z.of_N x) (Z.of_N y) _ _ (shape64 _ Rx) (shape64 _ Ry)).
+  unfold kcZ, key_cmp. rewrite <- !nan64_Z, <- !key64_Z by assumption. reflexivity.
+Qed.
+
+End FloatLink.
